@@ -31,6 +31,7 @@ def tree_hash(repo=None):
         ["git", "-C", repo, "ls-files", "-co", "--exclude-standard"], text=True
     ).splitlines()
     h = hashlib.sha256()
+    h.update(b"EXTRACT_VERSION 2\0")  # bump when the set of extracted units changes
     # the driver itself is part of what the facts depend on
     for extra in (os.path.join(VERIF, "mirx", "src", "main.rs"),):
         with open(extra, "rb") as f:
@@ -99,6 +100,28 @@ def run_driver(repo, outdir, target, log, extra_args=("--workspace",)):
     return r.returncode
 
 
+TEMPLATE_REL = "crates/lib/mimium-lang/src/compiler/mimium_placeholder.rs.template"
+
+
+def extract_rust_template(fdir):
+    """The runtime embedded in generated Rust programs is a source template of the repository; its markers are
+    comments, so it is compiled on its own as crate `mimium_rust_template` and its MIR facts are stored with the
+    rest.  A template that no longer compiles stand-alone yields no fact file (checks that need it fail closed)."""
+    src = os.path.join(REPO, TEMPLATE_REL)
+    if not os.path.exists(src):
+        return
+    tdir = os.path.join(WORK, "tmpl")
+    os.makedirs(os.path.join(tdir, "src"), exist_ok=True)
+    with open(os.path.join(tdir, "Cargo.toml"), "w") as f:
+        f.write(
+            '[package]\nname = "mimium_rust_template"\nversion = "0.0.0"\nedition = "2024"\n'
+            '[lib]\npath = "src/lib.rs"\n[workspace]\n'
+        )
+    shutil.copy(src, os.path.join(tdir, "src", "lib.rs"))
+    shutil.rmtree(os.path.join(tdir, "target", "debug", ".fingerprint"), ignore_errors=True)
+    run_driver(tdir, fdir, os.path.join(tdir, "target"), os.path.join(fdir, "template-build.log"), extra_args=())
+
+
 def ensure_facts(verbose=True):
     """Return (facts_dir, treehash, seconds_spent, reused)."""
     t0 = time.time()
@@ -125,6 +148,7 @@ def ensure_facts(verbose=True):
         if rc != 0:
             open(failed, "w").write("rc=%d\n" % rc)
             raise BuildFailed(log)
+        extract_rust_template(fdir)
         open(done, "w").write(th + "\n")
         # keep only the most recent few fact sets
         root = os.path.join(WORK, "facts")
